@@ -33,6 +33,44 @@ PROPS = {
              "last Next. A case is non-trivial if it has >= 2 records and (>= 2 row groups or a batch larger than the page size, i.e. >= 2 pages "
              "in a chunk); distinct = distinct hash of the whole case.",
     ),
+    "C02": dict(
+        level="exploration",
+        technique="property-based testing (rapid): generated workloads; every written file parsed by an independent thrift/Parquet walker with a byte ledger",
+        level_text="Exploration: generated workloads on five struct shapes (flat, nested 3 deep, same-named groups, repeated groups); each file is "
+                   "judged by a parser written from the format specification that accounts for every byte. No proof of absence.",
+        level_note="Trusted: pqref (independent thrift compact + Parquet walker), golang/snappy and compress/gzip for decompression. "
+                   "Not demanded: ColumnMetaData.encodings content, created_by, statistics content (C12).",
+        fixtures=["flat24", "nest", "tiny", "deep", "samename"],
+        gen_anchored=True,
+        stages=[dict(test="TestC02", kind="rapid", quick=2400, thorough=48000)],
+        replay="TestReplayC02",
+        rule="rapid-generated workloads as in C01 on fixtures flat24, nest, tiny, deep (groups nested 3 levels, required/optional in several "
+             "positions) and samename (same-named groups under different parents); the bytes given to the sink are parsed by pqref: magic x2, "
+             "footer length, thrift footer, schema tree by num_children equal to the schema derived from the Go struct, leaves <-> chunks 1:1 in "
+             "order, data_page_offset/file_offset contiguous from byte 4, page chain by compressed_page_size, decompression with the recorded codec "
+             "(= requested), uncompressed sizes, num_values, total_(un)compressed_size, row-group num_rows = batch size, total_byte_size = sum of "
+             "uncompressed chunk sizes, FileMetaData.num_rows, every byte accounted for; per page <= page-size records, first repetition level 0, "
+             "level sections strictly decoded, value section exactly consumed. Non-trivial: >= 2 records and (>= 2 row groups or >= 2 pages in a "
+             "chunk), or any non-empty case on deep/samename; distinct by case hash.",
+    ),
+    "C03": dict(
+        level="exploration",
+        technique="property-based testing (rapid): written column data compared with an independent Dremel shredder; records reassembled by an independent assembler",
+        level_text="Exploration: generated records (every nil/empty/multi-element combination the generator reaches) on the fixture shapes and, in the "
+                   "lab stage, on every compiling shape of the bounded grammar; rep/def levels and values read from the file by an independent parser "
+                   "are compared entry by entry with the canonical striping, then reassembled by a spec-only assembler.",
+        level_note="Trusted: pqref's shredder/assembler (written from the Dremel definitions, self-tested as inverses) and page parser.",
+        fixtures=["flat24", "nest", "tiny", "deep", "samename"],
+        gen_anchored=True,
+        stages=[dict(test="TestC03", kind="rapid", quick=2400, thorough=48000)],
+        replay="TestReplayC03",
+        rule="rapid-generated workloads (as C01, <= 60 records, lists <= 300) on fixtures flat24, nest (repeated-in-repeated, optional group with "
+             "repeated group), tiny, deep, samename; for every row group and column the (rep, def, value) entries decoded from the pages by pqref "
+             "must equal the reference shredder's output for the same records; levels <= column maxima; the reference assembler must rebuild the "
+             "original records from the file's entries (sibling columns must agree on null-ness/length of shared groups). Non-trivial: the records "
+             "contain a nil optional below the top level, an empty list below the top level, or lists with >= 2 elements at two nesting levels; "
+             "distinct by case hash.",
+    ),
 }
 
 
